@@ -750,3 +750,35 @@ func (p *Prog) DeepContains(t *Term, pred func(*Term) bool, depth int) bool {
 	})
 	return found
 }
+
+// Alternatives: the non-phi leaves a value term may stand for, looking through phis and through
+// the values returned by repository helpers (bounded depth). Used for "every alternative is …"
+// checks, where DeepContains answers "some alternative contains …".
+func (p *Prog) Alternatives(t *Term, depth int) []*Term {
+	var out []*Term
+	seen := map[string]bool{}
+	var walk func(t *Term, d int)
+	walk = func(t *Term, d int) {
+		t = t.unconv()
+		if t.Op == "phi" {
+			for _, a := range t.Args {
+				walk(a, d)
+			}
+			return
+		}
+		if d > 0 {
+			if rs := p.ReturnTerms(t); len(rs) > 0 {
+				for _, r := range rs {
+					walk(r, d-1)
+				}
+				return
+			}
+		}
+		if k := t.String(); !seen[k] {
+			seen[k] = true
+			out = append(out, t)
+		}
+	}
+	walk(t, depth)
+	return out
+}
